@@ -16,6 +16,14 @@ func init() {
 	}
 }
 
+// resetTapeFile empties the recorder file.
+func resetTapeFile() {
+	if tapeFile != nil {
+		tapeFile.Truncate(0)
+		tapeFile.Seek(0, 0)
+	}
+}
+
 // Tape is the single source of every decision of a simulated run. In
 // generation mode it draws from a PRNG seeded by the run seed and records what
 // it drew; in replay mode it feeds the recorded list and, after its end,
